@@ -2883,6 +2883,12 @@ func (mgr *Manager) Listen() (chan Event, func()) {
 			if !ok {
 				return
 			}
+			select {
+			case <-l.close:
+				// closed already (an event is still being delivered, so the listener is still listed)
+				return
+			default:
+			}
 			if l.active == 0 {
 				delete(mgr.listeners, ch)
 				close(ch)
